@@ -57,6 +57,20 @@ def traces_of(chk, items, tag):
     return traces, meta
 
 
+def pd_steps(tg, iv, k):
+    """number of grid steps in interval k of a split with interval size iv (grids and intervals are whole hours here)"""
+    import pandas as pd
+    step = pd.Timedelta(tg.freq if tg.freq[0].isdigit() else '1' + tg.freq)
+    size = pd.Timedelta(iv)
+    per = int(size / step)
+    return max(0, min(per, tg.T - k * per))
+
+
+def pd_per(tg, iv):
+    import pandas as pd
+    return int(pd.Timedelta(iv) / pd.Timedelta(tg.freq if tg.freq[0].isdigit() else '1' + tg.freq))
+
+
 def adversarial(seed):
     """names that are digits / prefixes of each other / contain the separators the code uses; variables without rows"""
     import datetime as dt
@@ -117,6 +131,27 @@ def run(tier, seed):
             real.build()
             items.append(('%s_%d' % (tag, c['id']), real.portfolio, real.prices, real.timegrid))
     traces, meta = traces_of(chk, items, 'assembly')
+    # every interval problem of a split set-up is a problem in its own right: its own mapping must describe its own variables
+    for s_ in range(seed, seed + (1 if not th else 3)):
+        for z in zoo.ZOO:
+            name, pf, pr, tg = z(s_)
+            iv = '4h' if name in ('coarse', 'periodic', 'periodic_duration') else '2h'
+            sel = dict(check='assembly_trace', family='split_interval', portfolio=name)
+            try:
+                with quiet():
+                    sop = pf.setup_split_optim_problem(pr, tg, interval_size=iv)
+                # the grid of interval k has as many steps as the interval covers
+                for k, o in enumerate(sop.ops):
+                    Tk = int(len({int(t) for (t, n_) in o.map_nodal_restr})) if o.map_nodal_restr else int(tg.T)
+                    nsteps = int(round(pd_steps(tg, iv, k)))
+                    first = min([int(t) for (t, n_) in o.map_nodal_restr] or [0])
+                    traces.append(ASM.assembly_trace(pf, pr, tg, o, global_only=True, T=nsteps, nodal_step_offset=(first // max(1, pd_per(tg, iv))) * pd_per(tg, iv)))
+                    meta.append(dict(sel, interval=min(k, 2)))
+                    chk.cnt['eval_interval_problems'] += 1
+            except tlc.MachineryError:
+                raise
+            except Exception as e:
+                chk.violation(dict(sel, check='setup_raises', error=type(e).__name__), 'split set-up raised %s: %s' % (type(e).__name__, e), dict(portfolio=name))
     # stand-alone assets: each asset's own problem as a one-asset "portfolio" without nodal rows is covered by the size /
     # label clauses on the per-asset tables inside every trace
     n_real = len(traces)
